@@ -318,7 +318,8 @@ func (s *SMF) WriteTo(f io.Writer) (size int64, err error) {
 		}
 	}
 
-	return wr.output.size, nil
+	// err is the error that broke the track loop, if any
+	return wr.output.size, err
 }
 
 func (s *SMF) log(format string, vals ...interface{}) {
